@@ -157,6 +157,8 @@ class Interp:
         self.prog = prog
         self.ctx = ctx
         self.loop_bound = loop_bound
+        self.loop_bound_for = {}     # function object -> its own (larger) bound
+        self.bound_fn = None
         self.steps = step_budget
         from . import models as M
         self.models = M
@@ -848,8 +850,10 @@ class Interp:
             if self.watch is not None and bb == self.watch[1] and fr.fn is self.watch[0]:
                 c = fr.cells.get(self.watch[2])
                 self.watch_log.append(c.v if c is not None else None)
-            if n > self.loop_bound:
-                raise PathEnd('bound', 'loop bound %d at %s %s' % (self.loop_bound, fr.fn.name.rsplit('::', 1)[-1], bb))
+            if n > self.loop_bound and n > self.loop_bound_for.get(fr.fn, 0):
+                self.bound_fn = fr.fn
+                raise PathEnd('bound', 'loop bound %d at %s %s' % (max(self.loop_bound, self.loop_bound_for.get(fr.fn, 0)),
+                                                                    fr.fn.name.rsplit('::', 1)[-1], bb))
             stmts, term = blocks[bb]
             for s in stmts:
                 if s.kind == 'assign':
